@@ -266,7 +266,8 @@ def handle_deaths(ctx, results):
         oracle = "C07.hang" if r.get("hang") else ("C07.alloc_cap" if r.get("cap") else "C07.abort")
         path = os.path.join(ctx.replays, f"{j['prop']}-crash-{j['label']}-{idx}.scn")
         with open(path, "w") as f:
-            f.write(f"# property {j['prop']}\n# oracle {oracle}\n# signature worker-died\n# detail worker {what} while executing scenario index {idx}" + (f" (allocation request of {r['cap']} bytes refused)" if r.get("cap") else "") + "\n")
+            prof = next((k for k, d in PROFILE_DIRS.items() if f"/target/{d}/" in j["argv"][0]), "release")
+            f.write(f"# property {j['prop']}\n# oracle {oracle}\n# signature worker-died\n# profile {prof}\n# detail worker {what} while executing scenario index {idx}" + (f" (allocation request of {r['cap']} bytes refused)" if r.get("cap") else "") + "\n")
             f.write(text)
         ctx.found.append({"oracle": oracle, "sig": "worker-died", "detail": f"worker {what} while executing scenario index {idx}" + (f"; a single allocation of {r['cap']} bytes was requested" if r.get("cap") else ""), "replay": path, "crash": True})
 
@@ -331,6 +332,31 @@ def load_known(verif):
     return known
 
 
+PROFILE_DIRS = {"release": "release", "plain": "plain", "dev": "debug"}
+
+
+def replay_profile(path):
+    """Build profile named in a replay file's header (default: release)."""
+    try:
+        with open(path, errors="replace") as f:
+            for line in f:
+                if not line.startswith("#"):
+                    break
+                if line.startswith("# profile "):
+                    p = line.split()[2]
+                    return p if p in PROFILE_DIRS else "release"
+    except OSError:
+        pass
+    return "release"
+
+
+def binary_for(verif, profile, build=False):
+    path = os.path.join(verif, "target", PROFILE_DIRS[profile], "tzsim")
+    if build and profile != "release":
+        sh(["cargo", "build", "--offline", "--profile", profile], cwd=os.path.join(verif, "tzsim"))
+    return path
+
+
 def confirm_replay(ctx, f):
     """A violation is reported only after its replay file reproduced in a fresh process."""
     path = f.get("replay")
@@ -343,7 +369,7 @@ def confirm_replay(ctx, f):
             return False
         return p.returncode == 1
     try:
-        p = subprocess.run([ctx.tzsim, "replay", path, "--quiet"], env=env(shim=True), stdout=subprocess.PIPE, stderr=subprocess.STDOUT, text=True, timeout=45 if f.get("crash") else 300)
+        p = subprocess.run([binary_for(ctx.verif, replay_profile(path)), "replay", path, "--quiet"], env=env(shim=True), stdout=subprocess.PIPE, stderr=subprocess.STDOUT, text=True, timeout=45 if f.get("crash") else 300)
     except subprocess.TimeoutExpired:
         return bool(f.get("crash"))
     if f.get("crash"):
@@ -558,7 +584,7 @@ def main(verif, argv):
             return 2 if r is None else r
         if not ensure_built(verif):
             return 2
-        p = subprocess.run([os.path.join(verif, "target", "release", "tzsim"), "replay"] + argv[1:], env=env(shim=True))
+        p = subprocess.run([binary_for(verif, replay_profile(argv[1]), build=True), "replay"] + argv[1:], env=env(shim=True))
         return p.returncode if p.returncode >= 0 else 1
     if argv[0] == "selftest":
         if not ensure_built(verif):
